@@ -6,7 +6,6 @@ use crate::{
     store::{
         changes_applied,
         col_count,
-        dump,
         dump_diff,
     },
     util::*,
@@ -163,9 +162,11 @@ fn first_key(c: &Changes, col: Column) -> Option<(Vec<u8>, Option<Vec<u8>>)> {
 pub fn run_history(args: &Args, report: &Report, hs: u64) {
     let mut rng = rng_for(hs, &[1]);
     let b = rng.gen_range(0..100);
-    let backend = if b < 72 {
+    // RocksDB histories cost seconds each (column-family creation and close fsync), so few of them in quick
+    let (m, r) = if args.is_thorough() { (70, 86) } else { (95, 98) };
+    let backend = if b < m {
         Backend::Memory
-    } else if b < 88 {
+    } else if b < r {
         Backend::RocksDb
     } else {
         Backend::RocksDbRewind
@@ -179,6 +180,7 @@ pub fn run_history(args: &Args, report: &Report, hs: u64) {
             return;
         }
     };
+    report.add(&format!("seq.env_new_ms.{}", backend.name()), t0.elapsed().as_millis() as u64);
     let rt = tokio::runtime::Builder::new_current_thread()
         .enable_all()
         .start_paused(true)
@@ -190,7 +192,9 @@ pub fn run_history(args: &Args, report: &Report, hs: u64) {
     }
     drop(rt);
     let name = env.backend.name();
+    let t1 = std::time::Instant::now();
     env.close();
+    report.add(&format!("seq.env_close_ms.{name}"), t1.elapsed().as_millis() as u64);
     report.add(&format!("seq.wall_ms.{name}"), t0.elapsed().as_millis() as u64);
 }
 
@@ -198,7 +202,7 @@ async fn drive(args: &Args, report: &Report, hs: u64, rng: &mut StdRng, env: &En
     let st = selftest(args);
     let backend = env.backend;
     let bname = backend.name();
-    let collide_profile = backend != Backend::Memory || chance(rng, 30);
+    let collide_profile = backend != Backend::Memory || chance(rng, 70);
     let hold_p = *pick(rng, &[0u32, 0, 30, 60]);
     let genesis_height = *pick(rng, &[0u32, 0, 0, 1, 1, 5, 5, 1000, 1000, 70_000, u32::MAX - 9, u32::MAX - 2]);
     let n_ops = args.by_tier(36usize, 60);
@@ -423,7 +427,7 @@ async fn drive(args: &Args, report: &Report, hs: u64, rng: &mut StdRng, env: &En
                 None => fault_ok = false,
             },
             "metadata_collide" => {
-                let pre = dump(&env.inner);
+                let pre = env.dump();
                 match pre.keys().find(|(c, _)| *c == Column::Metadata as u32) {
                     Some((_, k)) => merge(&mut changes, raw_change(Column::Metadata, k.clone(), Some(vec![1, 2, 3]))),
                     None => fault_ok = false,
@@ -460,7 +464,7 @@ async fn drive(args: &Args, report: &Report, hs: u64, rng: &mut StdRng, env: &En
         };
 
         // ------------------------------------------------ pre-state
-        let pre_dump = dump(&env.inner);
+        let pre_dump = env.dump();
         let block_exists = env.db.storage::<FuelBlocks>().contains_key(&bh.into()).unwrap_or(true);
         let consensus_exists = env
             .db
@@ -537,7 +541,7 @@ async fn drive(args: &Args, report: &Report, hs: u64, rng: &mut StdRng, env: &En
                 .commit_changes(None, raw_change(Column::Coins, vec![0xFF, 0xFF], Some(vec![1])).into());
             st_done = true;
         }
-        let post_dump = dump(&env.inner);
+        let post_dump = env.dump();
         let db_latest = HistoricalView::latest_height(&env.db).map(|x| *x);
         let db_latest_port = ImporterDatabase::latest_block_height(&env.db).ok().flatten().map(|x| *x);
 
